@@ -115,9 +115,26 @@ theorem eq_core (text key arg msg : Bytes) (v : GoVal) (lo : Int) (m : Measure)
     all_goals simp [cmp, hex, FloatVal.eq]
     rename_i neg; cases neg <;> simp
 
-theorem toStrIface_cases (v : GoVal) : (∃ s, toStrIface v = .ok s) ∨ (∃ w, toStrIface v = .error (.unmodelled w)) := by
+/-- `ToStr` of the value either yields a text or stops on a residual (`need`: the rendering is asked
+of the standard library; `unmodelled`: the wire format cannot name the value) — it never panics -/
+theorem toStrIface_cases (ext : Ext) (v : GoVal) :
+    (∃ s, toStrIface ext v = .ok s) ∨ (∃ w, toStrIface ext v = .error (.unmodelled w)) ∨ (∃ q, toStrIface ext v = .error (.need q)) := by
+  have hs : ∀ x, (∃ s, sprintExt ext x = .ok s) ∨ (∃ w, sprintExt ext x = .error (.unmodelled w)) ∨ (∃ q, sprintExt ext x = .error (.need q)) := by
+    intro x
+    unfold sprintExt askExt
+    cases ext (.sprint x.fp) with
+    | none => exact Or.inr (Or.inr ⟨_, rfl⟩)
+    | some a =>
+      by_cases h : a.code = 1
+      · exact Or.inl ⟨a.text, by simp [h, bind, Except.bind, pure, Except.pure]⟩
+      · exact Or.inr (Or.inl ⟨"ToStr of composite", by simp [h, bind, Except.bind, pure, Except.pure, throw, throwThe, MonadExceptOf.throw]⟩)
+  have hd : ∀ x, (∃ s, toStrDyn ext x = .ok s) ∨ (∃ w, toStrDyn ext x = .error (.unmodelled w)) ∨ (∃ q, toStrDyn ext x = .error (.need q)) := by
+    intro x
+    unfold toStrDyn
+    repeat' split
+    all_goals first | exact Or.inl ⟨_, rfl⟩ | exact hs _
   unfold toStrIface
   repeat' split
-  all_goals first | exact Or.inl ⟨_, rfl⟩ | exact Or.inr ⟨_, rfl⟩
+  all_goals first | exact Or.inl ⟨_, rfl⟩ | exact hd _
 
 end PGV.Proofs.Size
